@@ -2,7 +2,7 @@
 //
 // Build (see refs/README.md):  clang++-14 -std=c++20 ... -I/verif/refs refs/tests/t_ref_types.cpp $L/libccl.a -o /var/tmp/t_ref_types
 // Run:   python3 refs/tests/harvest.py > /var/tmp/t_ref_types_harvest.txt
-//        /var/tmp/t_ref_types /var/tmp/t_ref_types_harvest.txt [-v]
+//        /var/tmp/t_ref_types /var/tmp/t_ref_types_harvest.txt [-v] [-quick]     (full run: ~5 min under ASan)
 // Exit code 0 iff every disagreement is on the list of known accidents of the real checker
 // (classified below in KnownAccident()).
 #include "ref_types.h"
@@ -243,6 +243,7 @@ struct Stats {
 struct Finding { std::string klass, context, expr, real, mine; };
 
 static bool verbose = false;
+static bool quick = false;     // skip the random and grown corpora
 static std::vector<Finding> findings{};
 static std::set<std::string> seenCases{};
 
@@ -562,11 +563,16 @@ struct RandomGen {
     case 15: return "Fi2,1[" + Term(depth - 1) + (rng.Chance(50) ? "," + Term(depth - 1) : "") + "](" + Term(depth - 1) + ")";
     }
   }
+  //! quantifier bodies and negation operands: only binary formulas and predicates may be parenthesised
+  static std::string Par(const std::string& body) {
+    const bool unary = body.rfind("\xC2\xAC", 0) == 0 || body.rfind("\xE2\x88\x80", 0) == 0 || body.rfind("\xE2\x88\x83", 0) == 0 || body.rfind("P1[", 0) == 0;
+    return unary ? " " + body : " (" + body + ")";
+  }
   std::string Logic(int depth) {
     if (depth <= 0 || rng.Chance(40)) { return Term(depth - 1) + rng.Pick(relOps) + Term(depth - 1); }
     switch (rng.Below(6)) {
     default:
-    case 0: return "\xC2\xAC(" + Logic(depth - 1) + ")";
+    case 0: return "\xC2\xAC" + Par(Logic(depth - 1));
     case 1: return "(" + Logic(depth - 1) + (rng.Chance(50) ? " & " : " \xE2\x87\x92 ") + Logic(depth - 1) + ")";
     case 2: case 3: {
       const auto domain = Term(depth - 1);
@@ -574,7 +580,7 @@ struct RandomGen {
       vars.push_back(name);
       auto body = Logic(depth - 1);
       vars.pop_back();
-      return (rng.Chance(50) ? "\xE2\x88\x80" : "\xE2\x88\x83") + name + "\xE2\x88\x88" + domain + " (" + body + ")";
+      return (rng.Chance(50) ? "\xE2\x88\x80" : "\xE2\x88\x83") + name + "\xE2\x88\x88" + domain + Par(body);
     }
     case 4: {
       const auto domain = Term(depth - 1);
@@ -584,7 +590,7 @@ struct RandomGen {
       vars.push_back(second);
       auto body = Logic(depth - 1);
       vars.pop_back(); vars.pop_back();
-      return "\xE2\x88\x80" + (rng.Chance(50) ? "(" + first + "," + second + ")" : first + "," + second) + "\xE2\x88\x88" + domain + " (" + body + ")";
+      return "\xE2\x88\x80" + (rng.Chance(50) ? "(" + first + "," + second + ")" : first + "," + second) + "\xE2\x88\x88" + domain + Par(body);
     }
     case 5: return "P1[" + Term(depth - 1) + "," + Term(depth - 1) + "]";
     }
@@ -661,6 +667,7 @@ int main(int argc, char** argv) {
   for (int i = 1; i < argc; ++i) {
     const std::string arg{ argv[i] };
     if (arg == "-v") { verbose = true; continue; }
+    if (arg == "-quick") { quick = true; continue; }
     std::ifstream in{ arg };
     if (!in) { std::fprintf(stderr, "cannot open %s\n", arg.c_str()); return 2; }
     for (std::string line; std::getline(in, line);) {
@@ -690,7 +697,7 @@ int main(int argc, char** argv) {
 
   Stats randomStats{};
   RandomGen random{ Rng{ 20261002 } };
-  for (int i = 0; i < 40000; ++i) {
+  for (int i = 0; i < (quick ? 0 : 40000); ++i) {
     const auto expr = random.Root(2 + static_cast<int>(random.rng.Below(3)));
     Compare(contexts[i % 2], envs[i % 2], expr, Syntax::MATH, randomStats);
   }
@@ -708,8 +715,8 @@ int main(int argc, char** argv) {
   gMode = 0;
 
   Stats grownStats{};
-  Grow(contexts[0], envs[0], grownStats, 60000);
-  Grow(contexts[1], envs[1], grownStats, 30000);
+  Grow(contexts[0], envs[0], grownStats, quick ? 0 : 60000);
+  Grow(contexts[1], envs[1], grownStats, quick ? 0 : 30000);
 
   auto report = [](const char* title, const Stats& s) {
     std::printf("%s: checked=%zu (unparsed, skipped=%zu) agree=%zu (of which accepted=%zu) unsupported=%zu "
